@@ -435,6 +435,7 @@ def big_grammar_source(K, texts):
     kws = ["kw%02d" % i for i in range(K)]
     ends = ["e%02d" % i if i % 3 else chr(ord('A') + i // 3) for i in range(K)]      # string terms and (every third) char terms
     parts = [PRELUDE, "#include <vector>\nnamespace big {\nconstexpr char numpat[] = \"[0-9]+\"; constexpr regex_term<numpat> num(\"num\");\n"
+             "constexpr char hashpat[] = \"#[0-9a-f]{40}\"; constexpr regex_term<hashpat> hash(\"hash\");   // a counted repetition: many automaton states for a short pattern text\n"
              "constexpr nterm<std::vector<long>> prog(\"prog\"); constexpr nterm<long> stmt(\"stmt\"), expr(\"expr\"), term(\"term\");\n"
              "struct lim { static const size_t state_count_cap = %d; static const size_t max_sit_count_per_state_cap = %d; };" % (K * 20 + 150, (2 * K + 2) * (K + 3) + 200)]
     for i in range(K):
@@ -449,12 +450,13 @@ def big_grammar_source(K, texts):
              "expr(expr, '+', term) >= [](long a, skip, long b) { return (a + b) % 1000; }",
              "expr(expr, '<', term) >= [](long a, skip, long b) { return long(a < b); }",        # a term whose id is a prefix of the error symbol's and the eof symbol's ids
              "term(num) >= [](std::string_view sv) { long v = 0; for (char c : sv) v = (v * 10 + (c - '0')) % 1000; return v; }",
+             "term(hash) >= [](std::string_view sv) { return long(sv[1] >= 'a' ? sv[1] - 'a' + 10 : sv[1] - '0') + 500L; }",
              "term('(', expr, ')') >= ftors::_e2",
              "term('(', error, ')') >= ftors::val(995L)"]        # an error rule deep inside: its error-shift targets are discovered late (high state numbers)
     for i in range(K):
         rules.append('stmt("%s", expr, E%d, \';\') >= [](skip, long v, skip, skip) { return %dL + v; }' % (kws[i], i, i * 1000))
         rules.append('stmt("%s", error, E%d, \';\') >= ftors::val(%dL)' % (kws[i], i, -(i + 2)))      # an error rule in every context: error-shift targets spread over the state numbers
-    terms = ["num", "'+'", "'<'", "'('", "')'", "';'"] + ['"%s"' % k for k in kws] + ["E%d" % i for i in range(K)]
+    terms = ["num", "hash", "'+'", "'<'", "'('", "')'", "';'"] + ['"%s"' % k for k in kws] + ["E%d" % i for i in range(K)]
     parts.append("inline const auto& the_parser() { static const auto* p = new parser(prog, terms(%s), nterms(prog, stmt, expr, term), rules(\n  %s), use_generated_lexer{}, lim{}); return *p; }"
                  % (", ".join(terms), ",\n  ".join(rules)))
     parts.append("}")
@@ -480,7 +482,7 @@ def big_tables(kws, ends):
     K = len(kws)
     # rule = (lhs, rhs tuple, semantic tag)
     R = [("S'", ("prog",), None), ("prog", (), ("list0",)), ("prog", ("prog", "stmt"), ("append",)), ("stmt", ("error", ";"), ("val", -1)),
-         ("expr", ("term",), ("e", 0)), ("expr", ("expr", "+", "term"), ("add",)), ("expr", ("expr", "<", "term"), ("lt",)), ("term", ("num",), ("num",)),
+         ("expr", ("term",), ("e", 0)), ("expr", ("expr", "+", "term"), ("add",)), ("expr", ("expr", "<", "term"), ("lt",)), ("term", ("num",), ("num",)), ("term", ("hash",), ("hash",)),
          ("term", ("(", "expr", ")"), ("e", 1)), ("term", ("(", "error", ")"), ("val", 995))]
     for i in range(K):
         R.append(("stmt", (kws[i], "expr", "E%d" % i, ";"), ("ctx", i)))
@@ -562,7 +564,7 @@ def big_eval(text, kws, ends):
     import re
     toks = []
     pos = 0
-    tok_re = re.compile(r"\s*(kw\d\d|e\d\d|[A-Z]|[0-9]+|[+<();])")
+    tok_re = re.compile(r"\s*(kw\d\d|e\d\d|[A-Z]|[0-9]+|#[0-9a-f]{40}|[+<();])")
     while pos < len(text):
         m = tok_re.match(text, pos)
         if not m:
@@ -578,6 +580,7 @@ def big_eval(text, kws, ends):
     def sym(t):
         if t == "$": return "$"
         if t.isdigit(): return "num"
+        if t[0] == "#": return "hash"
         if t in ends: return "E%d" % ends.index(t)
         return t
     toks.append("$")
@@ -619,6 +622,7 @@ def big_eval(text, kws, ends):
             elif tag[0] == "e": v = args[tag[1]]
             elif tag[0] == "add": v = (args[0] + args[2]) % 1000
             elif tag[0] == "lt": v = 1 if args[0] < args[2] else 0
+            elif tag[0] == "hash": v = int(args[0][1], 16) + 500
             elif tag[0] == "num":
                 v = 0
                 for c in args[0]: v = (v * 10 + int(c)) % 1000
@@ -640,7 +644,7 @@ def big_texts(seed, n, K, kws, ends):
             if d < 4 and rnd.random() < 0.35:
                 ps += ["("] + expr(d + 1) + [")"]
             else:
-                ps.append(str(rnd.randint(0, 9999)))
+                ps.append(str(rnd.randint(0, 9999)) if rnd.random() < 0.9 else "#" + "".join(rnd.choice("0123456789abcdef") for _ in range(40)))
             ps.append("+" if rnd.random() < 0.8 else "<")
         return ps[:-1]
     out = []
@@ -679,7 +683,7 @@ def run_big(pid, tier, seed, work, viol_dir):
             vp = os.path.join(viol_dir, "%s_compile_big.json" % pid)
             json.dump({"check": pid, "kind": "programbig", "compiler": cxx, "source": src_text, "what": "generated program does not compile", "log": res["log"], "texts": texts, "K": K}, open(vp, "w"))
             errs = [l for l in res["log"].splitlines() if "error" in l][:1]
-            violations.append(("a grammar of %d rules / %d terms with custom limits does not compile with %s: %s" % (K + 7, 2 * K + 5, cxx, errs[0][:200] if errs else ""), vp))
+            violations.append(("a grammar of %d rules / %d terms with custom limits does not compile with %s: %s" % (2 * K + 10, 2 * K + 7, cxx, errs[0][:200] if errs else ""), vp))
         return violations, evaluations, nontrivial, notes, labels
     out = res["out"]
     info = [l for l in out.splitlines() if l.startswith("BIGINFO")]
@@ -687,7 +691,7 @@ def run_big(pid, tier, seed, work, viol_dir):
     if exc or not info:
         vp = os.path.join(viol_dir, "%s_big_construct.json" % pid)
         json.dump({"check": pid, "kind": "programbig", "compiler": cxx, "source": src_text, "what": "construction failed", "texts": texts, "K": K}, open(vp, "w"))
-        violations.append(("a conflict-free grammar of %d rules / %d terms could not be constructed with limits that suffice (%s): %s" % (K + 7, 2 * K + 5, cxx, exc[0][7:200] if exc else "no output, rc=%s" % res.get("rc")), vp))
+        violations.append(("a conflict-free grammar of %d rules / %d terms could not be constructed with limits that suffice (%s): %s" % (2 * K + 10, 2 * K + 7, cxx, exc[0][7:200] if exc else "no output, rc=%s" % res.get("rc")), vp))
         return violations, evaluations, nontrivial, notes, labels
     try:
         labels["big-grammar:lr1-states"] = int(info[0].split("=")[1])
@@ -764,6 +768,9 @@ def render_c17b(cases):
             out.append("constexpr nterm<uint64_t> " + ", ".join('N%d("%s")' % (i, nname(i, nN)) for i in range(nN)) + ";")
             # terms are string terms whose spellings are prefixes of each other, longest declared first (nothing is parsed here)
             tsp = lambda t: '"%s"' % ("t" * (g["nT"] - t))
+            if (len(g["text"]) + gi) % 3 == 0 and kind != "regex-name":
+                # every third grammar: the terminals are control-character char terms, whose ids are generated \\xHH strings (pairs share a low nibble or a 16-block)
+                tsp = lambda t: ["'\\x01'", "'\\x11'", "'\\x0e'", "'\\x1e'", "'\\x81'", "'\\x02'"][t % 6]
             terms = [tsp(t) for t in range(g["nT"]) if not (kind == "term" and t == which)]
             if kind == "regex-name":
                 # terminal `which` is a declared regex term "num"; the rules use a different, undeclared regex term that is also called "num"
@@ -943,6 +950,8 @@ def emit_cases(seed, n, work, spelling=True, only_class=None, named_terms=False,
         env["EMIT_ALWAYS_SPELLED"] = "1"
     if same_names:
         env["EMIT_SAME_NAMES"] = "1"; env["EMIT_NAMED_TERMS"] = "1"
+    if os.environ.get("_EMIT_PID") in ("C11", "C17", "C01"):
+        env["EMIT_CONTROL_TERMS"] = "1"
     if os.environ.get("_EMIT_PID") in ("C09", "C10"):
         env["EMIT_GIANT_LEXEME"] = "1"
     if os.environ.get("_EMIT_PID") == "C18":
@@ -1294,7 +1303,7 @@ def run(pid, tier, seed, work, viol_dir, known_ids=()):
                 lab("rule-form:" + fm)
             lab("compiler:" + cxx)
         samples = [{"grammar": c["grammar"]["text"], "rule_forms": forms_of[i][:6]} for i, c in enumerate(cases[:3])]
-    else:  # C17 (b)
+    elif pid == "C17":  # C17 (b)
         src = os.path.join(work, "bad_0.cpp")
         text, meta = render_c17b(cases)
         open(src, "w").write(text)
